@@ -196,6 +196,10 @@ func (t *tr) expr(e ast.Expr) string {
 		if id, ok := x.X.(*ast.Ident); ok && x.Sel.Name == "Width" && t.drawn[id.Name] {
 			return "(.width (.v " + q(t.names[id.Name]) + "))"
 		}
+		// ch.Grapheme of a character ranged over: a character is known by its grapheme
+		if id, ok := x.X.(*ast.Ident); ok && x.Sel.Name == "Grapheme" && t.drawn[id.Name] {
+			return "(.v " + q(t.names[id.Name]) + ")"
+		}
 		// a path of fields from a parameter or local (ctx.Max.Width)
 		if base, path, ok := selPath(x); ok && base != t.recv {
 			if cn, ok := t.names[base]; ok {
@@ -539,6 +543,9 @@ func (t *tr) stmt(s ast.Stmt) []string {
 		}
 		e := t.expr(x.X)
 		v := t.lhs(x.Value, true)
+		if vid, ok := x.Value.(*ast.Ident); ok {
+			t.drawn[vid.Name] = true
+		}
 		return []string{"S.range " + q(v) + " " + e + "\n    " + t.block(x.Body.List)}
 	case *ast.BranchStmt:
 		if x.Label != nil {
@@ -705,7 +712,7 @@ func genLang(c *ex.Ctx) {
 	}
 	emit(tf, "vxfw/textfield/textfield.go", "", "tf", "graphemeCountInString", "tfGraphemeCount")
 	ti := c.Parse("widgets/textinput/textinput.go")
-	for _, fn := range []string{"SetContent", "Update", "resegment"} {
+	for _, fn := range []string{"SetContent", "Update", "resegment", "String", "CursorPosition"} {
 		emit(ti, "widgets/textinput/textinput.go", "Model", "m", fn, "ti"+strings.ToUpper(fn[:1])+fn[1:])
 	}
 	emit(ti, "widgets/textinput/textinput.go", "", "m", "isAlphaNumeric", "tiIsAlphaNumeric")
